@@ -209,6 +209,34 @@ CHECKS = {
         "untrusted multipliers; weights are exercised for Poisson only (the excitation objective's weight semantics are not "
         "stated by the property: W=None); tolerances: Poisson gap <= 2e-2 x scale, excitation level within 2e-3.",
         "5/C07"),
+    "C08": (
+        "Lean 4 proof (objective forms; weak duality over box + norm ball => certified optimality against every feasible point) + exact per-answer certificates",
+        "Theorems in lean/Dreye/Props/C08.lean (with Props/Cert.lean) prove for every size and ordered field: every point of "
+        "the feasible set reproduces the target within l2_eps and respects the bounds; the code's secondary objectives are the "
+        "least-squares forms ||Mx-r||^2 (norm, variance via nI-J, total closest to a value, closest to a vector) or linear "
+        "(smallest / largest total); accepted multipliers (box multipliers derived, one norm-ball multiplier with "
+        "Cauchy-Schwarz in squared form) give goal(x) <= goal(y) + delta for EVERY feasible y. Every run evaluates, exactly in Q "
+        "at dreye's answer for every option value and tolerance, the bounds, the reproduction error and that certificate "
+        "(multipliers from an auxiliary CLARABEL solve); if no certificate is found an independent solve searches for a better "
+        "feasible point before a violation is reported.",
+        "Trusted: Lean kernel; cvxpy/solvers are engines (certificate-checked per row); the auxiliary solve only supplies "
+        "untrusted multipliers; delta is accepted up to 1e-4 of the goal's scale and the reproduction error up to 5% of l2_eps "
+        "(solver feasibility tolerance); the tuple form of underdetermined_opt is not exercised.",
+        "5/C08"),
+    "C09": (
+        "Lean 4 proof (second-stage set, ordinary fit feasible, certified minimal variance incl. L1 window) + exact stage-1 optimum and per-answer certificates",
+        "Theorems in lean/Dreye/Props/C09.lean (with C08/Cert) prove: every point of the second-stage set keeps the error within "
+        "l2_eps + norm and respects bounds; the ordinary fit lies in that set when no L1 is requested; sum(eps x^2) is the "
+        "diagonal quadratic sum_k e_k x_k^2 with e = column sums and the reported variances sum to it; variance propagates with "
+        "K squared; accepted multipliers (with or without the two L1 rows) give var(x) <= var(y) + delta for EVERY y of the set, "
+        "hence var(x) <= var(ordinary fit) + delta. Every run computes the attainable error exactly (Lean-verified KKT optimum "
+        "of stage 1), and checks on dreye's answer: error <= best + l2_eps, L1 window, B_var = eps x^2 exactly for the default / "
+        "explicit / uncertainty-derived variance model (all K shapes, incl. matrix K through the estimator), the minimal-"
+        "variance certificate, and variance <= ordinary fit.",
+        "Trusted: Lean kernel; cvxpy/solvers are engines (certificate-checked per row); stage-1 'norm' used for the certificate "
+        "set is recomputed by the harness with the same call; delta accepted up to 1e-3 of the variance; batch sizes > 1 belong "
+        "to C05.",
+        "5/C09"),
 }
 
 NOT_YET = "check not built yet in this round of work (planned in DESIGN.md section 5); no claim is made"
